@@ -50,12 +50,29 @@ class Model:
         self.case_once = case_once
         self.cur_expr = None          # outermost statement expression
         self.handled = 0
+        self.macros: dict[str, dict] = {}
+        self._scan(self.tree)
+        self.use_stack: list[int] = []       # eids of active use-macro sites
+        self.frames: list[dict] = []         # slot fills per macro invocation
+        self.fail_stack: dict[int, list] = {}  # id(exc) -> use_stack snapshot
+
+    def _scan(self, n: dict) -> None:
+        if n["t"] != "el":
+            return
+        if n.get("define_macro"):
+            self.macros[n["define_macro"]] = n
+        for c in n["children"]:
+            self._scan(c)
 
     # -- expressions -------------------------------------------------------------
     def ev(self, e: dict):
         k = e["k"]
         if k == "P":
-            return self.probe(e["id"])
+            try:
+                return self.probe(e["id"])
+            except BaseException as exc:
+                self.fail_stack[id(exc)] = list(self.use_stack)
+                raise
         if k == "lit":
             src = e["src"]
             if src in ("nothing", "None"):
@@ -165,7 +182,11 @@ class Model:
             if self.handler is not None:
                 self.handler(exc)
             mode, fe = n["on_error"]
-            tagged = (not n["talns"]) and n["omit"] is None
+            # (an element whose own tag is never rendered - tal: namespace,
+            # omit-tag, or a use-macro element, which is replaced by the
+            # macro - has no tag in its fallback either)
+            tagged = (not n["talns"]) and n["omit"] is None and \
+                not n.get("use_macro")
             if tagged:
                 self.out.append("<" + n["tag"])
                 for name, parts in n["static"]:
@@ -180,7 +201,21 @@ class Model:
                 self.out.append("</" + n["tag"] + ">")
             self.error = prev if False else self.error
 
-    def element(self, n: dict, switch_state) -> None:
+    def element(self, n: dict, switch_state, via_use: bool = False) -> None:
+        if n.get("define_macro") and not via_use:
+            # rendered in place: its own invocation, no slot is filled
+            self.frames.append({})
+            try:
+                self.element(n, switch_state, via_use=True)
+            finally:
+                self.frames.pop()
+            return
+        slot = n.get("define_slot")
+        if slot and self.frames and slot in self.frames[-1]:
+            # the caller's fill-slot element replaces this element,
+            # statements and all (only on-error stays around it)
+            self.element(self.frames[-1][slot], None)
+            return
         for scope, name, e in n["define"]:
             self.ev(e)
         if n["case"] is not None:
@@ -207,6 +242,17 @@ class Model:
         self.body(n)
 
     def body(self, n: dict) -> None:
+        if n.get("use_macro"):
+            fills = {c["fill_slot"]: c for c in n["children"]
+                     if c["t"] == "el" and c.get("fill_slot")}
+            self.use_stack.append(n["eid"])
+            self.frames.append(fills)
+            try:
+                self.element(self.macros[n["use_macro"]], None, via_use=True)
+            finally:
+                self.frames.pop()
+                self.use_stack.pop()
+            return
         if n["replace"] is not None:
             mode, e = n["replace"]
             v = self.ev(e)
@@ -274,6 +320,8 @@ class Model:
             res["out"] = "".join(self.out)
         except BaseException as e:      # noqa: BLE001 - predicted outcome
             res["raise"] = [type(e).__name__, e]
+        if res["raise"] is not None:
+            res["use_stack"] = self.fail_stack.get(id(res["raise"][1]), [])
         res["history"] = list(self.probe.history)
         res["handler"] = list(self.handler.calls) if self.handler else []
         res["handled"] = self.handled
